@@ -30,6 +30,7 @@ type ScLazy struct {
 type ScResult struct {
 	ID        any           `json:"id"`
 	Facts     []mgjson.Atom `json:"facts"`
+	Empty     [][]any       `json:"empty"`
 	Det       bool          `json:"det"`
 	Format    string        `json:"format"`
 	WriteErr  string        `json:"write_err"`
@@ -88,9 +89,12 @@ func compress(format string, raw []byte) ([]byte, error) {
 }
 
 func runSc(c ScCase) (res ScResult) {
-	res = ScResult{ID: c.ID, Facts: c.Facts, Det: c.Det, Format: c.Format, Reread: []mgjson.Atom{}, Lazy: []ScLazy{}}
+	res = ScResult{ID: c.ID, Facts: c.Facts, Empty: c.Empty, Det: c.Det, Format: c.Format, Reread: []mgjson.Atom{}, Lazy: []ScLazy{}}
 	if res.Facts == nil {
 		res.Facts = []mgjson.Atom{}
+	}
+	if res.Empty == nil {
+		res.Empty = [][]any{}
 	}
 	defer func() {
 		if r := recover(); r != nil {
